@@ -2,13 +2,12 @@
 # usage: regress_seeded.sh [budget]  - run every seeded change against the check that is meant to catch it
 cd "$(dirname "$0")/.."
 out=seeded/RESULTS.txt
-echo "# seeded changes vs checks, /repo $(git -C /repo log --format=%h -n1), /verif $(git log --format=%h -n1), $(date -u +%FT%TZ)" > $out.tmp
+echo "# seeded changes vs checks, /repo $(git -C /repo log --format=%h -n1), /verif $(git log --format=%h -n1), $(date -u +%FT%TZ)" > $out
 for d in seeded/*/; do
   id=$(basename $d)
   prop=$(/venv/bin/python -c "import json;m=json.load(open('$d/meta.json'));print(m['detected_by_check'] if m['detected_by_check']!='none' else m['breaks_property'])")
   tier=$(/venv/bin/python -c "import json;m=json.load(open('$d/meta.json'));print(m.get('tier_needed','quick'))")
-  if ! git -C /repo apply --check $(readlink -f $d/patch.diff) 2>/dev/null; then echo "$id $prop APPLY-FAILED" >> $out.tmp; continue; fi
+  if ! git -C /repo apply --check $(readlink -f $d/patch.diff) 2>/dev/null; then echo "$id $prop APPLY-FAILED" >> $out; continue; fi
   if [ "$tier" = "thorough" ]; then r=$(tools/try_mutant.sh $d/patch.diff $prop 400 thorough | tail -1); else r=$(tools/try_mutant.sh $d/patch.diff $prop ${1:-60} | tail -1); fi
-  echo "$id check=$prop tier=$tier $r" >> $out.tmp
+  echo "$id check=$prop tier=$tier $r" >> $out
 done
-mv $out.tmp $out
